@@ -2,6 +2,7 @@ import SpoxModel.Lemmas.Opset
 import SpoxModel.Lemmas.OpsetRename
 import SpoxModel.Lemmas.OpsetFuncs
 import SpoxModel.Lemmas.OpsetNames
+import SpoxModel.Lemmas.OpsetMerge
 /-!
 # C09 — one opset per domain; mixed-version programs build and keep their meaning
 
@@ -107,6 +108,33 @@ theorem default_floor (g : PGraph) :
     cases g with | mk nodes => simp [reqGraph]
   obtain ⟨t, ht, hle⟩ := hd _ hm
   refine ⟨t, by simpa [fold] using ht, Nat.le_trans min_opset_ge_14 hle⟩
+
+/-- `IDENTITY_OPTIONAL_MIN_OPSET` as found in the source on this run is at least 16 (and not below the floor). -/
+theorem optional_min_ge_16 : 16 ≤ Generated.OpsetFacts.identityOptionalMin ∧
+    Generated.OpsetFacts.internalMinOpset ≤ Generated.OpsetFacts.identityOptionalMin := by decide
+
+/-- A model in which an optional-typed value is forwarded by an `_Introduce` — the result identities of the main
+    graph, of a body or of a function graph at any depth, or a user-level `intros` — imports the default domain
+    at 16 or above (the internal Identity nodes accept optional types only from 16 on). Together with
+    `default_floor`: never below 14, and never below 16 when an optional value is forwarded. -/
+theorem optional_floor (g : PGraph) (h : ∃ n ∈ allNodesG g, n.kind = .introOpt) :
+    ∃ v, lookup "" (buildModel genFacts g).imports = some v ∧ 16 ≤ v := by
+  obtain ⟨n, hn, hk⟩ := h
+  have hd : Dominates (buildModel genFacts g).imports (reqGraph genFacts g ++ []) := policy_dominates _
+  have hm : ("", genFacts.optionalMin) ∈ reqGraph genFacts g ++ [] := by
+    rw [List.append_nil]
+    exact (mem_reqGraph_iff genFacts _ g).mpr (Or.inr ⟨n, hn, by rw [hk]; simp [kindReq]⟩)
+  obtain ⟨t, ht, hle⟩ := hd _ hm
+  refine ⟨t, by simpa [fold] using ht, Nat.le_trans optional_min_ge_16.1 hle⟩
+
+/-- The floor of 14 does not depend on anything being optional: a program without any optional forwarding
+    still imports the default domain at 14 or above (this is `default_floor`; stated next to `optional_floor`
+    so that the pair reads as the property's clause). -/
+theorem floor_14_and_16 (g : PGraph) :
+    (∃ v, lookup "" (buildModel genFacts g).imports = some v ∧ 14 ≤ v) ∧
+      ((∃ n ∈ allNodesG g, n.kind = .introOpt) →
+        ∃ v, lookup "" (buildModel genFacts g).imports = some v ∧ 16 ≤ v) :=
+  ⟨default_floor g, optional_floor g⟩
 
 /-- …and so does every body and every function of it (each graph's own opsets). -/
 theorem default_floor_every_graph (extra : List Req) (g : PGraph) :
@@ -226,7 +254,8 @@ theorem node_valid_at_import_partial (g : PGraph) (e : Entry)
   | inline imps hd => exact inline_valid ops imps hd np c subs i hdom
   | internal => simp [entryValid, PNode.kind]
   | intro => simp [entryValid, PNode.kind]
-  | func d v => simp [entryValid, PNode.kind]
+  | introOpt => simp [entryValid, PNode.kind]
+  | func d v nm => simp [entryValid, PNode.kind]
 
 /-- The decision itself never fails (`opsets[domain]` is always present) for shipped constructors. -/
 theorem decision_total (g : PGraph) (e : Entry) (he : e ∈ (buildModel genFacts g).main)
@@ -255,7 +284,8 @@ theorem decision_total (g : PGraph) (e : Entry) (he : e ∈ (buildModel genFacts
     split <;> (try split) <;> simp_all
   | internal => simp [adaptBestEffort]
   | intro => simp [adaptBestEffort]
-  | func d v => simp [adaptBestEffort]
+  | introOpt => simp [adaptBestEffort]
+  | func d v nm => simp [adaptBestEffort]
 
 /-- A shipped constructor is sent to the converter only when the schema in force at the imported
     version is not the one it was written for, and then with exactly the import as target. -/
@@ -312,7 +342,8 @@ theorem convert_only_when_needed (g : PGraph) (e : Entry) (he : e ∈ (buildMode
       split at hc <;> cases hc
   | internal => simp [adaptBestEffort] at hc
   | intro => simp [adaptBestEffort] at hc
-  | func d v => simp [adaptBestEffort] at hc
+  | introOpt => simp [adaptBestEffort] at hc
+  | func d v nm => simp [adaptBestEffort] at hc
 
 /-! ## inlined models: conversion is decided by the default domain alone -/
 
@@ -392,7 +423,8 @@ theorem inline_target_is_import (g : PGraph) (e : Entry) (he : e ∈ (buildModel
     all_goals (first | cases hc | simp at hc)
   | internal => simp [adaptBestEffort] at hc
   | intro => simp [adaptBestEffort] at hc
-  | func d v => simp [adaptBestEffort] at hc
+  | introOpt => simp [adaptBestEffort] at hc
+  | func d v nm => simp [adaptBestEffort] at hc
 
 /-! ## nothing is remembered between builds (tie G inventory) -/
 
@@ -432,6 +464,35 @@ theorem adapted_names_deterministic (q : Bool) (nOut : Nat → Nat) (conv : Nat 
     (h : es₁.map Entry.key = es₂.map Entry.key) :
     allNames q nOut conv es₁ = allNames q nOut conv es₂ :=
   allNames_key q nOut conv es₁ es₂ h
+
+/-! ## one FunctionProto per (domain, name) -/
+
+/-- Equal keys, equal function graphs ⇒ equal definitions (imports, and opsets and decision node by node). -/
+theorem occurrences_consistent (extra : List Req) (g : PGraph)
+    (h : Consistent ((funcKeysOfGraph g).zip (funcsOfGraph g))) :
+    Consistent (funcOccurrences genFacts extra g) := by
+  intro a ha b hb hk
+  simp only [funcOccurrences, buildModelWith, List.map_map, List.zip_map_right, List.mem_map] at ha hb
+  obtain ⟨x, hx, rfl⟩ := ha
+  obtain ⟨y, hy, rfl⟩ := hb
+  have := h x hx y hy hk
+  simp only [Prod.map, id, Function.comp] at hk ⊢
+  rw [this]
+
+/-- The loop of `to_onnx_model` over the functions of a build: when every application of a function yields the
+    same function graph (instances are compiled in scopes of their own) and different functions have different
+    (domain, name) keys, it never raises "two different definitions", emits every key exactly once and emits
+    exactly the definitions that occur. -/
+theorem functions_merge (extra : List Req) (g : PGraph)
+    (h : Consistent ((funcKeysOfGraph g).zip (funcsOfGraph g))) :
+    ∃ r, emittedFunctions genFacts extra g = some r ∧ (r.map (·.1)).Nodup ∧
+      ∀ a, a ∈ r ↔ a ∈ funcOccurrences genFacts extra g :=
+  mergeFuncs_ok _ (occurrences_consistent extra g h)
+
+/-- …and it raises only when two occurrences of one key really carry different definitions. -/
+theorem functions_conflict_is_real (extra : List Req) (g : PGraph)
+    (h : emittedFunctions genFacts extra g = none) : ¬ Consistent (funcOccurrences genFacts extra g) :=
+  mergeFuncs_none _ h
 
 /-- `_adapt.py` and `_graph.py` keep no state that outlives a build (and the other files a build passes through no
     mutable default argument, caching decorator or `global`): no module-level binding, no `global`,
@@ -534,13 +595,16 @@ example : (buildModel genFacts mixedExample).main.all (fun e => decide (NodeOkB 
 example : (buildModel genFacts mixedExample).main.all
     (fun e => entryValid (buildModel genFacts mixedExample).imports e) = true := by decide +kernel
 example : (buildModel genFacts (.mk [])).imports = [("", 14)] := by decide +kernel
+/-- `build({"x": x}, {"o": op17.optional(x)})`: Optional-15 alone would give 15; the result identities forward an optional -/
+example : (buildModel genFacts (.mk [.mk (.op "" (opNo "Optional") 15) 1 true [] 1, .mk .introOpt 1 true [] 2])).imports = [("", 16)] ∧
+    (buildModel genFacts (.mk [.mk (.op "" (opNo "Optional") 15) 1 true [] 1])).imports = [("", 15)] := by decide +kernel
 example : (buildModel genFacts (renameG (· + 100) mixedExample)).main.map (·.node.id) = [101, 102, 103, 104, 105, 106, 107] ∧
     (buildModel genFacts (renameG (· + 100) mixedExample)).main.map (·.decision) =
       (buildModel genFacts mixedExample).main.map (·.decision) := by decide +kernel
 
 /-- a function whose body uses `ml3.label_encoder`, next to `ml4.label_encoder` and a v18 reduction -/
 def funcExample : PGraph :=
-  .mk [.mk (.func "spox.verif" 0) 1 true
+  .mk [.mk (.func "spox.verif" 0 "f") 1 true
          [.mk [.mk (.op "ai.onnx.ml" ((Generated.OpsetFacts.opNames.idxOf? ("ai.onnx.ml", "LabelEncoder")).getD 0) 2) 1 true [] 2]] 1,
        .mk (.op "ai.onnx.ml" ((Generated.OpsetFacts.opNames.idxOf? ("ai.onnx.ml", "LabelEncoder")).getD 0) 4) 1 true [] 3,
        .mk (.op "" (opNo "ReduceMax") 18) 1 true [] 4]
@@ -549,6 +613,24 @@ example : (buildModel genFacts funcExample).imports = [("", 18), ("ai.onnx.ml", 
     (buildModel genFacts funcExample).funcs.map (·.1) = [[("", 18), ("ai.onnx.ml", 4), ("spox.verif", 0)]] ∧
     (buildModel genFacts funcExample).funcs.map (fun f => f.2.map (·.decision)) = [[.keepNonDefault 2 4]] := by
   decide +kernel
+
+/-- one function (v17 `ReduceMean` with `axes` inside) applied twice — main graph and an If body — under a v21 Identity:
+    one definition is emitted, its node converted to 21; the same key with another body is a conflict -/
+def twiceExample (second : Nat) : PGraph :=
+  .mk [.mk (.func "spox.verif" 0 "f") 1 true [.mk [.mk (.op "" (opNo "ReduceMean") 13) 1 true [] 1]] 1,
+       .mk (.op "" (opNo "If") 16) 1 true
+         [.mk [.mk (.func "spox.verif" 0 "f") 1 true [.mk [.mk (.op "" (opNo "ReduceMean") second) 1 true [] 1]] 2],
+          .mk [.mk (.op "" (opNo "Neg") 13) 1 true [] 3]] 4,
+       .mk (.op "" (opNo "Identity") 21) 1 true [] 5]
+
+example : funcKeysOfGraph (twiceExample 13) = [("spox.verif", "f"), ("spox.verif", "f")] := by decide +kernel
+example : (emittedFunctions genFacts [] (twiceExample 13)).map (fun r => r.map (fun p => p.1.2)) = some ["f"] := by
+  decide +kernel
+example : (emittedFunctions genFacts [] (twiceExample 13)).map (fun r => r.map (fun p => p.2.1)) =
+    some [[("", 21), ("spox.verif", 0)]] := by decide +kernel
+example : (emittedFunctions genFacts [] (twiceExample 13)).map (fun r => r.map (fun p => p.2.2.map (·.2))) =
+    some [[.convert 13 21]] := by decide +kernel
+example : (emittedFunctions genFacts [] (twiceExample 18)).isNone = true := by decide +kernel
 
 /-- a legacy opset-11 model importing ai.onnx.ml 1 and a custom domain 2, next to an ml4 LabelEncoder, another
     legacy model asking for the custom domain at 3, and a v21 Identity: both inlined models are converted to 21 -/
